@@ -1165,8 +1165,11 @@ impl LZDiff {
             }
         }
 
-        // Remaining bases are literals
-        est_cost += text_size - i;
+        // Remaining bases are literals.  `i` is advanced by the backward-extended match
+        // length without rewinding, so it can pass `text_size`; C++ AGC computes this in
+        // unsigned 32-bit arithmetic, which wraps.  Make the wrap explicit so that builds
+        // with and without overflow checks compute the same estimate.
+        est_cost = est_cost.wrapping_add(text_size.wrapping_sub(i));
 
         est_cost
     }
